@@ -1,5 +1,6 @@
 import Driver.Proto
 import Neutrino.Spec.Utxo
+import Neutrino.Model.UtxoReaders
 open Neutrino.Utxo
 namespace Driver.Drv.Utxo
 
@@ -126,6 +127,8 @@ def runCase : CaseFn := fun c => Id.run do
     | ["result", id] => obsLines := obsLines.push (ln, "result", nat! id, obs)
     | ["again", id] => obsLines := obsLines.push (ln, "again", nat! id, obs)
     | ["after", id] => obsLines := obsLines.push (ln, "after", nat! id, obs)
+    | ["readers", id] => obsLines := obsLines.push (ln, "readers", nat! id, obs)
+    | ["late", id] => obsLines := obsLines.push (ln, "late", nat! id, obs)
     | ["end"] => endObs := some (ln, obs)
     | _ => pure ()
   let w := s.world
@@ -164,6 +167,39 @@ def runCase : CaseFn := fun c => Id.run do
     | some (q, k) =>
       let arrivedQ := k == 0 || k ≤ st.k
       let deliv := st.out.find? (fun d => d.req == q)
+      if kind == "readers" || kind == "late" then
+        -- several goroutines inside Result of this one request at the same time
+        let rs := (obs.splitOn " | ").map (fun x => x.trimAscii.toString)
+        let first := firstObs id
+        -- model: every reader, whether it entered before or after the delivery, is given the delivery
+        if !diverged then
+          match deliv with
+          | some d =>
+            let n := rs.length
+            let before := if kind == "readers" then (List.range n).map REv.read else []
+            let answers := (runR {} (before ++ [REv.deliver d.res] ++ (List.range n).map REv.read)).2
+            let mut j := 0
+            for r in rs do
+              let m := match answers.find? (·.1 == j) with | some a => showRes q a.2 | none => "HANG"
+              let okStop := st.quit && (r == "err shutdown" || m == "err shutdown")
+              if r != "cancelled" && r != m && !okStop then
+                out := out.push s!"DIFF {pre} line {ln}: {kind} {id} reader {j} impl=<{r}> model=<{m}>"
+                diverged := true
+              j := j + 1
+          | none => pure ()
+        -- oracle, on the implementation's own answers: every Result call on a request returns what the first
+        -- one returned, and none is still waiting once the request has been answered
+        if first != "HANG" && first != "" && first != "noreq" then
+          let mut j := 0
+          for r in rs do
+            let stopSlack := s.stop != 0 && (r == "err shutdown" || first == "err shutdown")
+            if r == "cancelled" || r == first || stopSlack then pure ()
+            else if r.startsWith "HANG" then
+              out := out.push s!"ORACLE-FAIL {pre} line {ln}: shape=result-reader-hang reader {j} of request {id} ({kind}, {rs.length} concurrent Result calls) was still waiting after the request had been answered <{first}> ({r})"
+            else
+              out := out.push s!"ORACLE-FAIL {pre} line {ln}: shape=result-readers-disagree reader {j} of request {id} ({kind}, {rs.length} concurrent Result calls) was given <{r}>, the first answer was <{first}>"
+            j := j + 1
+        continue
       let expected : String :=
         if !arrivedQ then "noreq"
         else if kind == "after" then "err shutdown"
